@@ -76,6 +76,53 @@ func (g *gateConn) Read(p []byte) (int, error) {
 	return g.Conn.Read(p)
 }
 
+// replayLockHeld: after operation op has returned, the shim lock must be free.
+func replayLockHeld(t *testing.T, op string, lockedFirst bool) {
+	c1, c2 := net.Pipe()
+	defer c1.Close()
+	defer c2.Close()
+	kr := agent.NewKeyring()
+	go agent.ServeAgent(kr, c2)
+	s, err := newShimAgent(c1, false)
+	if err != nil {
+		t.Fatal(err)
+	}
+	s.pubKeyComp = func(x, y ssh.PublicKey) bool { return string(x.Marshal()) < string(y.Marshal()) }
+	p3, hw := rCert(t, "hw", ssh.CertTimeInfinity)
+	kr.Add(agent.AddedKey{PrivateKey: p3})
+	s.AddHardCert(hw, "hw")
+	if lockedFirst {
+		s.Lock([]byte("p"))
+	}
+	_, fresh := rCertFor(t, p3)
+	ops := map[string]func(){
+		"List": func() { s.List() }, "Signers": func() { s.Signers() }, "Sign": func() { s.Sign(hw, []byte("d")) },
+		"Add": func() { _, p, _ := ed25519.GenerateKey(rand.Reader); s.Add(agent.AddedKey{PrivateKey: p}) },
+		"Remove": func() { s.Remove(hw) }, "RemoveAll": func() { s.RemoveAll() }, "AddHardCert": func() { s.AddHardCert(fresh, "fresh") },
+		"Lock": func() { s.Lock([]byte("p")) }, "Unlock": func() { s.Unlock([]byte("p")) }, "Close": func() { s.Close() },
+		"Extension": func() { s.Extension("ext@vsym", []byte("x")) }, "Forward": func() { s.Forward([]byte{11}) },
+	}
+	f := ops[op]
+	if f == nil {
+		fmt.Println("VSYM-REPLAY: NOT-REPRODUCED no replay for " + op)
+		return
+	}
+	done := make(chan struct{})
+	go func() { defer close(done); defer func() { recover() }(); f() }()
+	select {
+	case <-done:
+	case <-time.After(3 * time.Second):
+		fmt.Println("VSYM-REPLAY: NOT-REPRODUCED operation did not return")
+		return
+	}
+	if s.mu.TryLock() {
+		s.mu.Unlock()
+		fmt.Println("VSYM-REPLAY: NOT-REPRODUCED")
+		return
+	}
+	fmt.Println("VSYM-REPLAY: REPRODUCED " + op + " returned while still holding the shim lock")
+}
+
 // replayAtomicity: while operation op is suspended inside a call to the
 // underlying agent, the shim lock must be held.
 func replayAtomicity(t *testing.T, op string) {
@@ -143,6 +190,10 @@ func TestVsymReplay(t *testing.T) {
 	opA, opB := rp.Facts["opA"], rp.Facts["opB"]
 	if rp.Facts["kind"] == "atomicity" {
 		replayAtomicity(t, opA)
+		return
+	}
+	if rp.Facts["kind"] == "lock-held" {
+		replayLockHeld(t, opA, rp.Facts["locked-first"] == "true")
 		return
 	}
 
